@@ -7,7 +7,7 @@ CACHE = os.environ.get("VERIF_CACHE") or os.path.join(VERIF, ".cache")
 COQ = os.environ.get("VERIF_COQ") or os.path.join(VERIF, "coq")
 HARNESS_BIN = os.path.join(CACHE, "target", "release", "gdsl_verif_harness")
 MODEL_BIN = os.path.join(CACHE, "ocaml", "model_driver")
-RUSTFLAGS = "--cfg gdsl_verif --check-cfg cfg(gdsl_verif)"
+RUSTFLAGS = "--cfg gdsl_verif --check-cfg cfg(gdsl_verif)" + ((" " + os.environ["VERIF_EXTRA_RUSTFLAGS"]) if os.environ.get("VERIF_EXTRA_RUSTFLAGS") else "")
 FLAVOURS = {"D": ["digraph", "sync_digraph"], "U": ["ungraph", "sync_ungraph"]}
 ALLOWED_AXIOMS = set()  # standard-library axioms that a theorem may depend on (none so far)
 
